@@ -214,7 +214,7 @@ type treeProj struct {
 
 func genTree(r *rand.Rand) *treeProj {
 	dirs := []string{"", "a/", "a/b/", "c/", "a/b/d/", "c/a/"}
-	names := []string{"resp.jst", "x.jst", "y.jst", "z.jst"}
+	names := []string{"Resp.jst", "resp.jst", "X.jst", "x.jst", "y.jst", "z.jst"} // also names that differ only in case
 	t := &treeProj{includes: map[string][]string{}, exists: map[string]bool{"root.jst": true}, isDir: map[string]bool{}}
 	for _, d := range dirs {
 		for _, n := range names {
